@@ -104,7 +104,9 @@ def stepOp (op : Nat) (r : Run) : Run × Option Exit :=
   | 12 =>
     let r1 := { r with src := exec r.src (.limitBegin 1) }
     let r2 := if r1.src.io2 - r1.src.iop ≥ 1 then { r1 with src := exec r1.src (.rd 1) } else r1
-    (r2, some .error)
+    -- the `return "#probe error"` follows the block: lang/check rejects a return inside one
+    -- (fixes/C08-check-io-block-escapes.patch)
+    ({ r2 with src := exec r2.src .limitEnd }, some .error)
   | 13 =>
     let r1 := { r with dst := exec r.dst (.limitBegin 3) }
     let r2 := copyFromReader 8 r1
